@@ -565,8 +565,27 @@ impl Case {
                 all_formatted = false;
             }
             if write_failed {
-                stats.probe("c16_write_side_failure_unconstrained");
+                stats.probe("c16_write_side_failure_judged");
                 blocks_judgeable = false;
+                // a reported failure leaves the content unconstrained; a run that claims success
+                // (exit 0) must have produced the right bytes all the same
+                if !exit_nonzero(&r) {
+                    let wrong = match self.mode {
+                        Mode::Files => final_bytes.as_deref() != Some(&reference[..]),
+                        Mode::StdinStdout => !self.knobs.stdout_tty && &r.stdout != reference,
+                        _ => false,
+                    };
+                    if wrong {
+                        out.push(Finding {
+                            oracle: "c16.silent_write_failure".into(),
+                            detail: format!(
+                                "a write-side operation failed ({:?}) but the exit status is 0 and the {} does not hold the stdin result",
+                                r.fired.iter().find(|x| !x.kind.is_benign() && is_write_side(x.op)).map(|x| (x.op, x.kind.name())),
+                                if self.mode == Mode::Files { "file" } else { "output" }
+                            ),
+                        });
+                    }
+                }
                 continue;
             }
             match self.mode {
@@ -821,7 +840,26 @@ impl Case {
             }
             (Expect::Bytes { unchanged, bytes }, false) => {
                 if write_failed {
-                    stats.probe("c17_write_side_failure_unconstrained");
+                    stats.probe("c17_write_side_failure_judged");
+                    if !exit_nonzero(&r) {
+                        let wrong = match self.mode {
+                            Mode::Files => {
+                                let want: &[u8] = if *unchanged { original } else { bytes };
+                                final_bytes.as_deref() != Some(want)
+                            }
+                            Mode::StdinStdout => !self.knobs.stdout_tty && &r.stdout != bytes,
+                            _ => false,
+                        };
+                        if wrong {
+                            out.push(Finding {
+                                oracle: "c17.silent_write_failure".into(),
+                                detail: format!(
+                                    "a write-side operation failed ({:?}) but the exit status is 0 and the bytes are not BOM + encode(format(decode(input)))",
+                                    r.fired.iter().find(|x| !x.kind.is_benign() && is_write_side(x.op)).map(|x| (x.op, x.kind.name()))
+                                ),
+                            });
+                        }
+                    }
                 } else if self.mode == Mode::Files {
                     if exit_nonzero(&r) {
                         out.push(Finding {
